@@ -133,7 +133,7 @@ theorem stepDown_rejected_ids (s : St) (id : Nat) (r : Resp) (hx : (id, r) ∈ (
   · have := hf _ _ _ h; subst this; simp [Resp.isRejection] at hr
   · have := (ha _ _ h).2; subst this; simp [Resp.isRejection] at hr
   · rcases List.mem_filterMap.mp h with ⟨e, _, he⟩
-    cases hact : e.2.2 <;> simp [hact] at he
+    cases hact : e.2.2 <;> simp [joinAnswer, hact] at he
     rcases he with ⟨_, rfl⟩
     simp [Resp.isRejection] at hr
 
